@@ -940,6 +940,9 @@ func (l *LinkLayerDiscoveryInfo) Decode8021() (info LLDPInfo8021, err error) {
 				return
 			}
 			l := int(o.Info[0])
+			if err = checkLLDPOrgSpecificLen(o, 1+l); err != nil {
+				return
+			}
 			if l > 0 {
 				info.ProtocolIdentities = append(info.ProtocolIdentities, o.Info[1:1+l])
 			}
